@@ -15,7 +15,6 @@ import (
 	"path/filepath"
 	"sort"
 	"strings"
-	"time"
 )
 
 type ReplayCase struct {
@@ -251,29 +250,58 @@ func (p *Program) Replay(pkgPath string, cases []ReplayCase, race bool) (map[str
 	if bo, err := build.CombinedOutput(); err != nil {
 		return out, fmt.Errorf("native replay build failed: %v\n%s", err, string(bo))
 	}
-	cmd := exec.Command(bin, "-test.run", "^TestVXReplay$", "-test.timeout", "20m")
-	cmd.Dir = tmp
-	cmd.Env = append(os.Environ(), "VX_CASES="+casesFile)
-	var buf bytes.Buffer
-	cmd.Stdout = &buf
-	cmd.Stderr = &buf
-	t0 := time.Now()
-	runErr := cmd.Run()
-	_ = t0
-	sc := bufio.NewScanner(&buf)
-	sc.Buffer(make([]byte, 1<<20), 1<<26)
-	var other []string
-	for sc.Scan() {
-		l := sc.Text()
-		if i := strings.Index(l, "VXR "); i >= 0 {
-			var o ReplayOutcome
-			if json.Unmarshal([]byte(l[i+4:]), &o) == nil {
-				out[o.ID] = o
-				continue
+	runOnce := func(cf string) (string, error) {
+		cmd := exec.Command(bin, "-test.run", "^TestVXReplay$", "-test.timeout", "20m")
+		cmd.Dir = tmp
+		cmd.Env = append(os.Environ(), "VX_CASES="+cf)
+		var buf bytes.Buffer
+		cmd.Stdout = &buf
+		cmd.Stderr = &buf
+		err := cmd.Run()
+		return buf.String(), err
+	}
+	parse := func(text string) []string {
+		var other []string
+		sc := bufio.NewScanner(strings.NewReader(text))
+		sc.Buffer(make([]byte, 1<<20), 1<<26)
+		for sc.Scan() {
+			l := sc.Text()
+			if i := strings.Index(l, "VXR "); i >= 0 {
+				var o ReplayOutcome
+				if json.Unmarshal([]byte(l[i+4:]), &o) == nil {
+					out[o.ID] = o
+					continue
+				}
+			}
+			other = append(other, l)
+		}
+		return other
+	}
+	if race {
+		// one process per case, so that a data race report is attributed to the case that ran
+		for i, c := range cases {
+			cf := filepath.Join(tmp, fmt.Sprintf("case%d.json", i))
+			b, _ := json.Marshal([]ReplayCase{c})
+			os.WriteFile(cf, b, 0o644)
+			text, _ := runOnce(cf)
+			if os.Getenv("VX_RACEDBG") != "" {
+				fmt.Fprintln(os.Stderr, "RACE RUN", c.ID, text)
+			}
+			parse(text)
+			if strings.Contains(text, "DATA RACE") {
+				o := out[c.ID]
+				o.ID = c.ID
+				if o.Outcome == "" || o.Outcome == "ok" {
+					o.Outcome = "race"
+					o.Msg = "data race reported by the Go race detector"
+				}
+				out[c.ID] = o
 			}
 		}
-		other = append(other, l)
+		return out, nil
 	}
+	text, runErr := runOnce(casesFile)
+	other := parse(text)
 	if len(out) == 0 && runErr != nil {
 		if len(other) > 30 {
 			other = other[:30]
